@@ -20,6 +20,7 @@ import (
 	"runtime/debug"
 	"slices"
 	"strings"
+	"time"
 
 	"golang.org/x/tools/go/ssa"
 )
@@ -507,6 +508,13 @@ func runFrame(fr *frame) {
 		ps.steps += int64(len(nonPhis))
 		if ps.steps > ps.maxSteps {
 			panic(pathAbort{"bound", fmt.Sprintf("instruction budget %d exceeded in %s", ps.maxSteps, fr.fn)})
+		}
+		if ps.steps > ps.nextClock {
+			// wall-clock guard per path (solver-heavy paths make few steps)
+			ps.nextClock = ps.steps + 20000
+			if !ps.pathDeadline.IsZero() && time.Now().After(ps.pathDeadline) {
+				panic(pathAbort{"unknown", "path wall-clock limit exceeded in " + fr.fn.String()})
+			}
 		}
 		for _, instr := range nonPhis {
 			if visitInstr(fr, instr) == kReturn {
